@@ -171,7 +171,10 @@ class CacheStore(object):
                 raise
 
         with fd:
-            if not self._cache_is_valid(store_filename, filename):
+            # Validate the file we actually opened, not whatever the path
+            # names by now: a concurrent store may have renamed a fresh entry
+            # over it in the meantime.
+            if os.fstat(fd.fileno()).st_mtime < os.stat(filename).st_mtime:
                 return None
             try:
                 data = pickle.load(fd)
